@@ -7,6 +7,7 @@ import HappyProofs.C11.SubmitRun
 import HappyProofs.C11.Completeness
 import HappyProofs.C11.Safety
 import HappyProofs.C11.LeaderInit
+import HappyProofs.C11.ProgJudgeOk
 /-! C11 — property theorems: statements about the `Spec` predicates on the frames of model runs.
 
 General theorems live next to their invariants (quantified over the repair flags they need):
@@ -22,6 +23,24 @@ General theorems live next to their invariants (quantified over the repair flags
 * `commit_monotone`            (Safety.lean)       needs `Rep v`
 * `new_leader_progress_reset`  (LeaderInit.lean)   every variant: a node that becomes leader starts with
                                `match_index = 0`, `next_index = last_index + 1` (nothing survives from an earlier leadership)
+* `stable_leader_commits`      (Progress.lean)     needs `Rep v`: BOUNDED PROGRESS under a stable leader — from any reachable state
+                               with an established leader `L` of term `t` and a quorum `L :: Q` of followers in sync (`inSync`), along any
+                               run in which no node of `L :: Q` sees a term above `t` (`stableRun`), every follower of `Q` is handed an
+                               AppendEntries carrying the entry and `L` is handed the reply to it (`ackedRun`), and no older
+                               acknowledgement overtakes a newer one (`noRegressRun`): the submitted command is appended at
+                               `k = len(log)+1`, replicated on `Q`, committed and applied by `L` at `k`, its future resolved with
+                               `k` and that application's result (`Hit`); `stable_leader_commits_obs` (ProgObs.lean): exactly one
+                               application at `k` in `L`'s frames, and no node ever reports another command at `k`;
+                               `stable_all_apply` (ProgAll.lean): every follower in sync that is handed the commit notice
+                               (`toldRun`) applies `k` too, and whoever applied `k` applied that command.
+                               `stable_leader_commits_conv` (ProgConvRun.lean): the same conclusion WITHOUT the in-sync premise, when each
+                               follower's AppendEntries conversation — refusals and the retries with decremented `next_index`
+                               included — is carried through to a successful acknowledgement (`convRun`).
+                               `stableOk_settled` (ProgJudgeOk.lean): the judge's clause `Spec.stableOk` accepts the frames of every
+                               model run in which only `L` is seen leading and at whose end every `last_applied` equals the length
+                               of `L`'s log; `stableOk_of_progress`: that follows from the schedule predicates for a one-command run.
+                               Ingredients: `est_step` (a leader is not demoted while no term rises), `sync_step` (a follower in
+                               sync stays in sync), `accept_step`, `ack_commits`, `laOk_reach` (`last_applied ≤ commit_index`).
 * `commit_monotone_partial`, `state_machine_safety_partial`, `leader_completeness_partial`: the earlier
   per-step / conditional forms (every variant), now lemmas of the full theorems
 
@@ -145,5 +164,147 @@ example : ¬ conflictBelowCommit (run Variant.repaired (init 3) (divergeRun.take
   intro h; apply h
   intro j _ hle
   rw [hc] at hle; omega
+
+/-! ### bounded progress under a stable leader -/
+
+/-- bounded progress — repaired code -/
+theorem stable_leader_commits_repaired (n : Nat) (pre : List Act) (L t f : Nat) (c : Cmd) (Q : List Nat) (as : List Act)
+    (h : StableFair Variant.repaired n pre L t f c Q as) :
+    getE ((run Variant.repaired (run Variant.repaired (init n) pre) (.submit L f c :: as)).nodes L).log
+        (nextIdx (run Variant.repaired (init n) pre) L) = some ⟨t, c⟩
+    ∧ (∀ p ∈ Q, getE ((run Variant.repaired (run Variant.repaired (init n) pre) (.submit L f c :: as)).nodes p).log
+        (nextIdx (run Variant.repaired (init n) pre) L) = some ⟨t, c⟩)
+    ∧ nextIdx (run Variant.repaired (init n) pre) L
+        ≤ ((run Variant.repaired (run Variant.repaired (init n) pre) (.submit L f c :: as)).nodes L).commit
+    ∧ nextIdx (run Variant.repaired (init n) pre) L
+        ≤ ((run Variant.repaired (run Variant.repaired (init n) pre) (.submit L f c :: as)).nodes L).lastApplied
+    ∧ Hit (outs Variant.repaired (run Variant.repaired (init n) pre) (.submit L f c :: as)) L
+        (nextIdx (run Variant.repaired (init n) pre) L) f c :=
+  stable_leader_commits Variant.repaired rep_repaired n pre L t f c Q as h.est h.qnd h.qne h.qq h.sync h.stable h.fair h.nr
+
+/-- node 0 wins term 1 with the vote of node 1; its first (empty) AppendEntries reach both followers and their replies reach it -/
+def stablePre : List Act := [.timeout 0, .deliver 0, .deliver 2, .deliver 3, .deliver 4, .deliver 5, .deliver 6]
+def cmdA : Cmd := ⟨1, 0, 0, 7, none⟩
+def cmdB : Cmd := ⟨2, 0, 1, 3, none⟩
+
+/-- after `submit 0 7 cmdA`: a heartbeat, a duplicated old acknowledgement, a second command, the AppendEntries 7/8 carrying
+    cmdA reach nodes 1/2 (with a dropped old message in between), their replies 9/10 reach node 0 -/
+def stableTail : List Act := [.heartbeat 0, .deliver 5, .submit 0 8 cmdB, .deliver 7, .drop 3, .deliver 8, .deliver 9, .deliver 10]
+
+/-- non-vacuity: a concrete 3-node stable run satisfies every hypothesis of `stable_leader_commits` (quorum `0 :: [1, 2]`) -/
+theorem stableFair_example : StableFair Variant.repaired 3 stablePre 0 1 7 cmdA [1, 2] stableTail := by decide
+
+/-- … and the conclusion is what the run shows: cmdA applied at index 1 with result `val 7`, future 7 resolved with it, commit index 1 -/
+example : (outs Variant.repaired (run Variant.repaired (init 3) stablePre) (.submit 0 7 cmdA :: stableTail)).flatMap (·.apps)
+      = [(1, cmdA, Res.val 7)]
+    ∧ (outs Variant.repaired (run Variant.repaired (init 3) stablePre) (.submit 0 7 cmdA :: stableTail)).flatMap (·.ress)
+      = [(7, 1, Res.val 7)]
+    ∧ ((run Variant.repaired (run Variant.repaired (init 3) stablePre) (.submit 0 7 cmdA :: stableTail)).nodes 0).commit = 1 := by decide
+
+/-- FAIRNESS IS NEEDED.  The same start, stable, in sync, without regress — the AppendEntries carrying cmdA even reach both
+    followers — but their replies are never delivered: the fairness hypothesis fails and nothing is committed or applied. -/
+theorem progress_needs_fairness :
+    established (run Variant.repaired (init 3) stablePre) 0 1 = true
+    ∧ (∀ p ∈ [1, 2], inSync (run Variant.repaired (init 3) stablePre) 0 1 p = true)
+    ∧ stableRun Variant.repaired 1 [0, 1, 2] (run Variant.repaired (init 3) stablePre)
+        [.submit 0 7 cmdA, .heartbeat 0, .deliver 7, .deliver 8, .heartbeat 0] = true
+    ∧ noRegressRun Variant.repaired 0 1 1 [1, 2] (run Variant.repaired (init 3) stablePre)
+        [.submit 0 7 cmdA, .heartbeat 0, .deliver 7, .deliver 8, .heartbeat 0] = true
+    ∧ (∀ p ∈ [1, 2], ackedRun Variant.repaired 0 1 1 p (run Variant.repaired (init 3) stablePre)
+        [.submit 0 7 cmdA, .heartbeat 0, .deliver 7, .deliver 8, .heartbeat 0] = false)
+    ∧ ((run Variant.repaired (run Variant.repaired (init 3) stablePre)
+        [.submit 0 7 cmdA, .heartbeat 0, .deliver 7, .deliver 8, .heartbeat 0]).nodes 0).commit = 0
+    ∧ ((run Variant.repaired (run Variant.repaired (init 3) stablePre)
+        [.submit 0 7 cmdA, .heartbeat 0, .deliver 7, .deliver 8, .heartbeat 0]).nodes 0).lastApplied = 0 := by decide
+
+/-- STABILITY IS NEEDED.  Node 2 times out (term 2) and its RequestVote reaches the leader: the leader steps down,
+    `stableRun` fails, the next heartbeat tick sends nothing, and cmdA is not committed. -/
+theorem progress_needs_stability :
+    stableRun Variant.repaired 1 [0, 1, 2] (run Variant.repaired (init 3) stablePre)
+        [.submit 0 7 cmdA, .timeout 2, .deliver 7, .heartbeat 0] = false
+    ∧ ((run Variant.repaired (run Variant.repaired (init 3) stablePre)
+        [.submit 0 7 cmdA, .timeout 2, .deliver 7, .heartbeat 0]).nodes 0).commit = 0 := by decide
+
+/-- bounded progress as observed, and for every node — repaired code -/
+theorem stable_leader_commits_obs_repaired (n : Nat) (pre : List Act) (L t f : Nat) (c : Cmd) (Q : List Nat) (as : List Act)
+    (h : StableFair Variant.repaired n pre L t f c Q as) :
+    (appsOf (framesFrom Variant.repaired (run Variant.repaired (init n) pre) (.submit L f c :: as)) L).filter
+        (fun q => q.1 == nextIdx (run Variant.repaired (init n) pre) L) = [(nextIdx (run Variant.repaired (init n) pre) L, c.id)]
+    ∧ (L, f, nextIdx (run Variant.repaired (init n) pre) L)
+        ∈ (framesFrom Variant.repaired (run Variant.repaired (init n) pre) (.submit L f c :: as)).flatMap (·.ress)
+    ∧ ∀ x ∈ allApps (frames Variant.repaired n (pre ++ .submit L f c :: as)),
+        x.2.1 = nextIdx (run Variant.repaired (init n) pre) L → x.2.2 = c.id :=
+  stable_leader_commits_obs Variant.repaired rep_repaired n pre L t f c Q as h
+
+/-- non-vacuity of `stable_all_apply`: after the commit a heartbeat tells both followers, and they apply cmdA as well -/
+def stableTail2 : List Act := stableTail ++ [.heartbeat 0, .deliver 11, .deliver 12]
+
+example : StableFair Variant.repaired 3 stablePre 0 1 7 cmdA [1, 2] stableTail2
+    ∧ (∀ p ∈ [1, 2], toldRun Variant.repaired 0 1 1 p (run Variant.repaired (init 3) stablePre) (.submit 0 7 cmdA :: stableTail2) = true)
+    ∧ (allApps (frames Variant.repaired 3 (stablePre ++ .submit 0 7 cmdA :: stableTail2))).filter (fun x => x.2.1 == 1)
+        = [(0, 1, 1), (1, 1, 1), (2, 1, 1)] := by decide
+
+/-! ### … with log back-off -/
+
+theorem stable_leader_commits_conv_repaired (n : Nat) (pre : List Act) (L t f : Nat) (c : Cmd) (Q : List Nat) (as : List Act)
+    (h : StableConv Variant.repaired n pre L t f c Q as) :
+    getE ((run Variant.repaired (run Variant.repaired (init n) pre) (.submit L f c :: as)).nodes L).log
+        (nextIdx (run Variant.repaired (init n) pre) L) = some ⟨t, c⟩
+    ∧ (∀ p ∈ Q, getE ((run Variant.repaired (run Variant.repaired (init n) pre) (.submit L f c :: as)).nodes p).log
+        (nextIdx (run Variant.repaired (init n) pre) L) = some ⟨t, c⟩)
+    ∧ nextIdx (run Variant.repaired (init n) pre) L
+        ≤ ((run Variant.repaired (run Variant.repaired (init n) pre) (.submit L f c :: as)).nodes L).commit
+    ∧ nextIdx (run Variant.repaired (init n) pre) L
+        ≤ ((run Variant.repaired (run Variant.repaired (init n) pre) (.submit L f c :: as)).nodes L).lastApplied
+    ∧ Hit (outs Variant.repaired (run Variant.repaired (init n) pre) (.submit L f c :: as)) L
+        (nextIdx (run Variant.repaired (init n) pre) L) f c :=
+  stable_leader_commits_conv Variant.repaired rep_repaired n pre L t f c Q as h
+
+/-- node 0 leads term 1, takes cmdA and replicates it to node 1 only (node 2 hears nothing); node 1 then wins term 2 with
+    node 0's vote: its `next_index` for node 2 is 2 although node 2's log is empty -/
+def backoffPre : List Act :=
+  [.timeout 0, .deliver 0, .deliver 2, .submit 0 5 cmdA, .heartbeat 0, .deliver 5, .deliver 7, .timeout 1, .deliver 8, .deliver 10]
+
+/-- the heartbeat's AppendEntries (prev = 1) is refused by node 2; the refusal reaches node 1, which retries with prev = 0; node 2
+    accepts both entries; its acknowledgement reaches node 1 -/
+def backoffTail : List Act := [.heartbeat 1, .deliver 14, .deliver 15, .deliver 16, .deliver 17]
+
+/-- non-vacuity with a real back-off round: node 2 is NOT in sync with leader 1, yet the hypotheses of
+    `stable_leader_commits_conv` hold (quorum `1 :: [2]`), and cmdB is committed at index 2 -/
+theorem stableConv_example :
+    StableConv Variant.repaired 3 backoffPre 1 2 9 cmdB [2] backoffTail
+    ∧ inSync (run Variant.repaired (init 3) backoffPre) 1 2 2 = false
+    ∧ ((run Variant.repaired (init 3) (backoffPre ++ .submit 1 9 cmdB :: backoffTail)).nodes 1).commit = 2
+    ∧ (outs Variant.repaired (run Variant.repaired (init 3) backoffPre) (.submit 1 9 cmdB :: backoffTail)).flatMap (·.ress)
+        = [(9, 2, Res.val 3)] := by decide
+
+/-! ### the judge's bounded-progress clause on the model's own transcript -/
+
+theorem stableOk_settled_repaired (n : Nat) (as : List Act) (L : Nat) (hL : L < n)
+    (h1 : onlyLeader L (frames Variant.repaired n as) = true) (h2 : settledAt (run Variant.repaired (init n) as) L = true) :
+    stableOk (frames Variant.repaired n as) = true :=
+  stableOk_settled Variant.repaired rep_repaired n as L hL h1 h2
+
+/-- the entry reaches both followers, their replies reach the leader, the next heartbeat carries the commit notice to both -/
+def settledTail : List Act :=
+  [.heartbeat 0, .deliver 7, .deliver 8, .deliver 9, .deliver 10, .heartbeat 0, .deliver 11, .deliver 12]
+
+/-- non-vacuity of `stableOk_of_progress`: its hypotheses hold of a concrete 3-node run -/
+theorem stableOk_example_hyps :
+    StableFair Variant.repaired 3 stablePre 0 1 7 cmdA (peers 3 0) settledTail
+    ∧ (∀ p ∈ peers 3 0, toldRun Variant.repaired 0 1 (nextIdx (run Variant.repaired (init 3) stablePre) 0) p
+          (run Variant.repaired (init 3) stablePre) (.submit 0 7 cmdA :: settledTail) = true)
+    ∧ onlyLeader 0 (frames Variant.repaired 3 (stablePre ++ .submit 0 7 cmdA :: settledTail)) = true
+    ∧ ((run Variant.repaired (init 3) (stablePre ++ .submit 0 7 cmdA :: settledTail)).nodes 0).log.length
+        = nextIdx (run Variant.repaired (init 3) stablePre) 0 := by decide
+
+/-- … and there the clause is not vacuous: one command accepted, every node applied it -/
+example : acceptedCmds (frames Variant.repaired 3 (stablePre ++ .submit 0 7 cmdA :: settledTail)) = [1]
+    ∧ (List.range 3).map (fun i => (appsOf (frames Variant.repaired 3 (stablePre ++ .submit 0 7 cmdA :: settledTail)) i).map (·.2))
+        = [[1], [1], [1]] := by decide
+
+/-- the judge rejects the unfair run: the accepted command is applied nowhere -/
+example : stableOk (frames Variant.repaired 3 (stablePre ++ [.submit 0 7 cmdA, .heartbeat 0, .deliver 7, .deliver 8, .heartbeat 0])) = false := by
+  decide
 
 end HappyModel.C11
